@@ -16,6 +16,7 @@ import (
 
 	"github.com/influxdata/influxdb/coordinator"
 	"github.com/influxdata/influxdb/models"
+	"github.com/influxdata/influxdb/tsdb"
 	"pgregory.net/rapid"
 	"verifkit"
 )
@@ -45,10 +46,20 @@ func TestVerifC03RealShardWriter(t *testing.T) {
 			}
 			script[i] = k
 		}
+		// the owner may not have the shard yet (first batch after the shard group was created): its store then
+		// answers ErrShardNotFound, the service creates the shard and must write the batch again
+		newShard := rapid.Bool().Draw(rt, "ownerLacksShard")
 		var mu sync.Mutex
+		created := !newShard
 		stored := map[string]int{}
 		var wg sync.WaitGroup
 		ts := newTestWriteService(func(id uint64, points []models.Point) error {
+			mu.Lock()
+			missing := !created
+			mu.Unlock()
+			if missing {
+				return tsdb.ErrShardNotFound
+			}
 			// the batch identifies its write: measurement w<i>
 			idx := -1
 			if len(points) > 0 {
@@ -72,6 +83,12 @@ func TestVerifC03RealShardWriter(t *testing.T) {
 			mu.Unlock()
 			return nil
 		})
+		ts.TSDBStore.CreateShardFn = func(database, policy string, shardID uint64, enabled bool) error {
+			mu.Lock()
+			created = true
+			mu.Unlock()
+			return nil
+		}
 		remote := coordinator.NewService(coordinator.Config{})
 		remote.Listener = ts.muxln
 		remote.DefaultListener = ts.defln
@@ -136,7 +153,7 @@ func TestVerifC03RealShardWriter(t *testing.T) {
 				afterSlow = true
 			}
 		}
-		stats.Case(nontrivial, fmt.Sprint(script), fmt.Sprintf("writes:%d", n), fmt.Sprintf("slow:%d", slow))
+		stats.Case(nontrivial || newShard, fmt.Sprint(script, newShard), fmt.Sprintf("writes:%d", n), fmt.Sprintf("slow:%d", slow), fmt.Sprintf("ownerLacksShard:%v", newShard))
 		if stats.WantSample() {
 			stats.Sample(map[string]interface{}{"script": script, "results": outcome})
 		} else {
